@@ -28,7 +28,9 @@ type Case struct {
 }
 
 func limitsFor(dim string, l uint) sb.Limits {
-	lim := sb.Limits{Call: big, Stack: big, Mem: big, TreeCall: big}
+	// the other dimensions are far out of reach (a leak in one dimension must not be reported as
+	// a stop in another when the iteration count grows)
+	lim := sb.Limits{Call: big, Stack: 50_000_000, Mem: big, TreeCall: big}
 	switch dim {
 	case "call":
 		lim.Call = l
